@@ -12,6 +12,8 @@ import (
 	"strings"
 	"sync"
 	"time"
+
+	"golang.org/x/tools/go/ssa"
 )
 
 type runConfig struct {
@@ -111,6 +113,49 @@ func loadAll(cfg *runConfig) (*Program, error) {
 				}
 				if !found {
 					return nil, fmt.Errorf("contract file classifies %s.%s, which does not exist", tn, f)
+				}
+			}
+		}
+	}
+	// a function literal stored in a field that has a field contract (functionQuery.Func,
+	// transformFunctionQuery.Func, ...) must carry a contract that says it conforms to it: callers of
+	// the field rely on the field contract, and the frame obligations of C04/C05/C13 hang on `conforms`
+	for name, f := range p.Funcs {
+		for _, blk := range f.Blocks {
+			for _, in := range blk.Instrs {
+				st, ok := in.(*ssa.Store)
+				if !ok {
+					continue
+				}
+				fa, ok := st.Addr.(*ssa.FieldAddr)
+				if !ok {
+					continue
+				}
+				pt, ok := fa.X.Type().Underlying().(*types.Pointer)
+				if !ok {
+					continue
+				}
+				str, ok := pt.Elem().Underlying().(*types.Struct)
+				if !ok {
+					continue
+				}
+				key := typeStr(pt.Elem()) + "." + str.Field(fa.Field).Name()
+				if ctr.Fields[key] == nil || !strings.HasSuffix(key, ".Func") {
+					continue // (the .iterator slots of the step queries are covered by the passes-test check below)
+				}
+				var stored *ssa.Function
+				switch v := st.Val.(type) {
+				case *ssa.MakeClosure:
+					stored, _ = v.Fn.(*ssa.Function)
+				case *ssa.Function:
+					stored = v
+				}
+				if stored == nil {
+					continue
+				}
+				sc := ctr.Funcs[p.Names[stored]]
+				if sc == nil || sc.Conforms != key {
+					return nil, fmt.Errorf("%s stores the function %s in %s, but that function has no contract with `conforms %s` (its obligations as an XPath function — no state kept between evaluations, cursor restored, value type — would go unchecked)", name, p.Names[stored], key, key)
 				}
 			}
 		}
